@@ -227,7 +227,7 @@ def run(ctx):
             tasks.append(("real", prog, n, p, E.D(n)))
     # realistic bitlengths (beyond the completely enumerated ones) on a boundary lattice: the bit-decomposition
     # gadgets are solved by the engine's weighted-sum rule, so the width costs nothing
-    wide = [(17, REC.BN128)] if not ctx.thorough else [(8, REC.BN128), (16, REC.BN128), (17, REC.BN128), (33, REC.BLS12_381), (65, REC.CURVE25519)]
+    wide = [(17, REC.BN128), (65, REC.BLS12_381)] if not ctx.thorough else [(8, REC.BN128), (16, REC.BN128), (17, REC.BN128), (33, REC.BLS12_381), (65, REC.CURVE25519)]
     for n, p in wide:
         for prog in progs:
             if O.expr_str(prog["expr"], prog["kinds"]) in HEAVY or "F" in prog["kinds"] or "P" in prog["kinds"]:
